@@ -1,5 +1,6 @@
 SPECIFICATION TraceSpec
-CONSTANTS Kinds = {"buf", "hmeta", "reply", "rawdata", "stream", "outlocal", "outremote", "iterfile", "geninfo", "metabuf", "cxxref", "bare"}
+CONSTANTS Kinds = {"buf", "hmeta", "reply", "rawdata", "stream", "outlocal", "outremote", "iterfile", "geninfo", "metabuf", "metanew", "cxxref", "bare"}
+  TextLens = {0, 249, 250, 1000}
   NH = 4 NObj = 8 Max = 1000 MaxExtra = 3 MaxTries = 1000 AsFound = FALSE
 INVARIANTS TypeOK AliveIffReferenced CountExact NoDangling
 POSTCONDITION TraceAccepted
